@@ -92,3 +92,25 @@ func init() {
 		}
 	}
 }
+
+func init() {
+	debugHooks["fields"] = func(c *Ctx, arg string) {
+		parts := strings.Split(arg, ",")
+		st := c.namedType(parts[0], parts[1])
+		la := c.Locks()
+		var fns []*ssa.Function
+		for _, f := range c.RepoFns {
+			if !c.excluded(f) {
+				fns = append(fns, f)
+			}
+		}
+		for _, a := range c.accessesOf(st, fns) {
+			must, _ := la.Held(a.In)
+			fresh := ""
+			if isFreshAlloc(a.Base) {
+				fresh = " (constructor)"
+			}
+			fmt.Printf("%-24s %-6s %-55s must=%s%s @%s\n", a.Field.Name(), a.Kind, c.fnName(a.Fn), must.names(), fresh, c.instrPos(a.In))
+		}
+	}
+}
